@@ -261,6 +261,8 @@ func renderOp(o stk.Operator) *OpDesc {
 		return &OpDesc{Builtin: int(x)}
 	case userOp:
 		return &OpDesc{User: true, Text: x.text, Ctx: x.ctx}
+	case sliceOp:
+		return &OpDesc{User: true, Slice: true, Text: x[0], Ctx: x[1]}
 	}
 	return &OpDesc{User: true, Text: o.String(), Ctx: o.Context()}
 }
@@ -328,6 +330,8 @@ func renderAny(v any) *JNode {
 		return &JNode{T: "op", Op: &OpDesc{Builtin: int(x)}}
 	case userOp:
 		return &JNode{T: "op", Op: &OpDesc{User: true, Text: x.text, Ctx: x.ctx}}
+	case sliceOp:
+		return &JNode{T: "op", Op: &OpDesc{User: true, Slice: true, Text: x[0], Ctx: x[1]}}
 	case []any:
 		return &JNode{T: "list", Els: renderList(x)}
 	case stk.Stack:
@@ -558,7 +562,7 @@ func (g *rtGen) op() *OpDesc {
 	case x < 20:
 		return &OpDesc{Builtin: []int{0, 7, 200}[g.r.Intn(3)]}
 	case x < 35:
-		return &OpDesc{User: true, Text: []string{"~=", "in", ":="}[g.r.Intn(3)], Ctx: "custom"}
+		return &OpDesc{User: true, Slice: g.r.Pct(30), Text: []string{"~=", "in", ":="}[g.r.Intn(3)], Ctx: "custom"}
 	case x < 40:
 		// refused by setOperator: the Condition keeps no operator
 		return &OpDesc{User: true, Text: "", Ctx: "custom"}
@@ -601,6 +605,9 @@ func (g *rtGen) stack(depth int, opaque bool) *JNode {
 	}
 	if g.r.Pct(20) {
 		n.Opt |= 2 // fold
+	}
+	if g.r.Pct(15) {
+		n.Opt |= 256 // no-nesting, switched on after the elements are in
 	}
 	if !opaque && n.Kind != "LIST" && g.r.Pct(20) {
 		n.Sym = []string{"&", "||", "and"}[g.r.Intn(3)]
@@ -653,6 +660,10 @@ func genMarshalRT(ctx *Ctx, emit func(any, string)) {
 			for _, els := range shapes {
 				for _, single := range []bool{false, true} {
 					emit(&RTInput{Tree: &JNode{T: "stack", Kind: k, Opt: fold, Els: els}, Single: single}, "exhaustive")
+					if !single {
+						// no-nesting switched on AFTER the elements were stored (it never affects those)
+						emit(&RTInput{Tree: &JNode{T: "stack", Kind: k, Opt: fold | 256, Els: els}, Single: single}, "exhaustive")
+					}
 				}
 			}
 		}
@@ -828,6 +839,9 @@ func jtnil(p string) *JNode      { return &JNode{T: "tnil", P: p} }
 func jint(i int64) *JNode        { return &JNode{T: "int", I: i} }
 func jlist(els ...*JNode) *JNode { return &JNode{T: "list", Els: els} }
 func jop(b int) *JNode           { return &JNode{T: "op", Op: &OpDesc{Builtin: b}} }
+func jsop(text, ctx string) *JNode { // user operator of an uncomparable Go type
+	return &JNode{T: "op", Op: &OpDesc{User: true, Slice: true, Text: text, Ctx: ctx}}
+}
 func juop(text, ctx string) *JNode {
 	return &JNode{T: "op", Op: &OpDesc{User: true, Text: text, Ctx: ctx}}
 }
@@ -895,8 +909,10 @@ func (g *jkGen) operator() *JNode {
 		return jop(1 + g.r.Intn(6))
 	case x < 65:
 		return jop([]int{0, 7, 255}[g.r.Intn(3)])
-	case x < 85:
+	case x < 78:
 		return juop("~=", "custom")
+	case x < 85:
+		return jsop("~=", "custom")
 	case x < 92:
 		return juop("", "custom")
 	}
@@ -1053,6 +1069,8 @@ func genMarshalJunk(ctx *Ctx, emit func(any, string)) {
 		{jstr("AND"), jlist(jstr("CONDITION"), jstr("k"), jop(0), jstr("v"))},
 		{jstr("AND"), jlist(jstr("CONDITION"), jstr("k"), juop("", "custom"), jstr("v"))},
 		{jstr("AND"), jlist(jstr("CONDITION"), jstr("k"), juop("~=", "custom"), jstr(""))},
+		{jstr("AND"), jlist(jstr("CONDITION"), jstr("k"), jsop("~=", "custom"), jstr("v"))},
+		{jstr("CONDITION"), jstr("k"), jsop("in", "custom"), jlist(jstr("LIST"), jint(1))},
 		{jstr("AND"), jlist(jstr("CONDITION"), jstr("k"), jnil(), jnil())},
 		{jstr("AND"), jlist(jstr("CONDITION"), jstr("k"), jtnil("int"), jtnil("stack"))},
 		{jstr("AND"), jlist(jstr("CONDITION"), jstr("k"), eq, jlist(jstr("CONDITION"), jstr("j"), jop(2), jint(3)))},
